@@ -13,6 +13,7 @@ ids="$*"
 fail=0
 for id in $ids; do
   p=$(echo "$id" | cut -d- -f1)
+  if grep -q '"status": "obsolete"' /verif/seeded/$id/meta.json; then echo "$id: obsolete (see meta.json), skipped"; continue; fi
   ( cd "$R" && git checkout -q -- . && git clean -fdq && git apply /verif/seeded/$id/patch.diff ) || { echo "$id: patch does not apply"; fail=1; continue; }
   out=$(/verif/bin/govc check -repo "$R" -verif "$V" -p "$p" -tier quick 2>&1); rc=$?
   nv=$(echo "$out" | grep -c "^VIOLATION")
